@@ -682,6 +682,22 @@ def run_C19(tier, seed):
             res.breach("iteration-yields-configured-number", f"second pass yields {len(second)} instances", config=cfg,
                        seed=sd)
         names += [i.name for i in second] + [g.generate().name]
+        # ... and a pass that starts after an earlier pass was abandoned part-way (a `break` out of a for loop, a few
+        # direct next() calls): iter() starts a new pass of the configured length; an exhausted pass stays exhausted
+        res.count("iteration-yields-configured-number")
+        it = iter(g)
+        partial = [next(it) for _ in range(3)]
+        third = list(g)
+        try:
+            next(iter([]) if False else it)
+            extra = True
+        except StopIteration:
+            extra = False
+        if len(third) != 8 or extra:
+            res.breach("iteration-yields-configured-number",
+                       f"after abandoning a pass at 3 instances a new pass yields {len(third)} instances"
+                       f"{' and next() on the exhausted iterator still yields' if extra else ''}", config=cfg, seed=sd)
+        names += [i.name for i in partial + third]
         if len(set(names)) != len(names):
             res.breach("names-never-reused", str(names), config=cfg, seed=sd)
         for inst in insts:
